@@ -5,9 +5,9 @@ V = os.path.dirname(os.path.dirname(os.path.abspath(__file__)))
 CLAIMED = {
  'C02': ("Shuffle structure: the stack-secret importer refuses non-bijective index vectors on every path (guard domination), every mix/glue routine applies exactly the recorded permutation with the secret stored at the same index (index-role agreement over symbolic terms), and the permutation constructors only swap / rotate. Necessary structural conditions; type preservation by re-masking is algebra and not decided.", "§3 C02",
          "must-fact dataflow + symbolic index-term agreement across the six mixing siblings"),
- 'C03': ("Completeness, necessary conditions only: at every fixed-base power the base is the member its table was built from or is guarded equal to it (a guard establishing inequality is a contradiction: every honest run fails), the prover's I/O shape is the exact dual of the verifier's for all 39 pairs, and both sides hash the same function/count/argument roles. Does not decide the algebra.", "§3 C03",
+ 'C03': ("Completeness, necessary conditions only: at every fixed-base power the base is the member its table was built from or is guarded equal to it (a guard establishing inequality is a contradiction: every honest run fails), the prover's I/O shape is the exact dual of the verifier's for all 39 pairs, both sides hash the same function/count/argument roles, sibling constructors forward the same parameters, and no verifier refuses a statement for having a specific value outside the confirmed inventory. Does not decide the algebra.", "§3 C03",
          "typestate of fixed-base tables + contradiction rule; prover/verifier I/O-shape duality and Fiat-Shamir argument agreement"),
- 'C04': ("Static check inventory over every offered verifier: accepting exits are guarded by each membership/range test, final equation (abstracted to the inputs it relates), sub-verifier verdict and per-round cut-and-choose check of a frozen reviewed inventory, under every value of the bool parameters; comparison operators cover all members; no verdict is dropped. Does not decide the 2^-kappa bound.", "§3 C04",
+ 'C04': ("Static check inventory over every offered verifier: accepting exits are guarded by each membership/range test, final equation (abstracted to the inputs it relates), sub-verifier verdict and per-round cut-and-choose check of a frozen reviewed inventory, under every value of the bool parameters; random challenges of the interactive verifiers leave only after the commitment they challenge, are drawn per round and the round count is the verifier's own; comparison operators cover all members; no verdict is dropped. Does not decide the 2^-kappa bound.", "§3 C04",
          "guard domination by must-fact dataflow against a frozen check inventory; sibling agreement; unused-verdict rule on resolved callees"),
  'C05': ("Static dependence and sanitizer analysis: every wire value and data parameter of every offered verifier is an input of a check guarding acceptance; wire values used as exponents carry a range fact and as bases a membership fact at acceptance; fixed-base powers refuse a foreign base. Necessary conditions of binding / refusal; 'changing X makes verification fail' itself is not decided.", "§3 C05",
          "backward dependence via normalised term leaves; taint-to-sink with sanitizer facts; guard domination"),
@@ -21,7 +21,7 @@ CLAIMED = {
          "must-facts at send sites (guard-before-send), loop-nest pair coverage, randomness-freshness dependence"),
  'C17': ("Static ordering/guard analysis of the two-party coin flip: every send whose value exposes the secret share (not hidden under an exponentiation) has, among the must-facts of its program point, the receipt and membership check of every other participant's commitment; the opening of the peer enters the result only after its range checks and the commitment equation; the result is the running sum modulo q. The multi-party variant and equality of the outputs are not decided.", "§3 C17",
          "typestate/ordering via must-facts at send sites with secrecy taint declassified at exponentiation; frozen guard inventory"),
- 'C12': ("Static taint-to-sink analysis with sanitizer facts over what is reachable from the wire entry points: every element access on/with untrusted data in the OpenPGP decoders, importers and verifiers satisfies index < capacity (sound linear prover over the must-facts); assertions on untrusted data are dominated by an explicit guard locally or at every tainting call site; wire moduli are non-zero; no null constant reaches GMP; allocations / stack arrays / resizes sized by decoded integers are bounded; variadic hashes do not read past their arguments. A closed list of sink kinds, not absence of all memory errors; integer wrap-around, raw-buffer capacities and termination are not claimed.", "§3 C12",
+ 'C12': ("Static taint-to-sink analysis with sanitizer facts over what is reachable from the wire entry points: every element access on/with untrusted data in the OpenPGP decoders, importers and verifiers satisfies index < capacity (sound linear prover over the must-facts); assertions on untrusted data are dominated by an explicit guard locally or at every tainting call site; wire moduli are non-zero; no null constant reaches GMP; allocations / stack arrays / resizes sized by decoded integers are bounded; variadic hashes do not read past their arguments; narrow (32-bit) arithmetic and unsigned differences on decoded integers are shown not to wrap (interval evaluation / linear prover). A closed list of sink kinds, not absence of all memory errors; general raw-buffer capacities and termination are not claimed.", "§3 C12",
          "interprocedural taint (value and shape) to a closed list of sinks, discharged by must-facts and a linear prover"),
  'C13': ("Static structure check of both channel implementations: a flag-aware must-pass-through analysis shows that with authentication enabled the received integer is written, true is returned and the receive counter advances only through the success edge of the MAC verification; both sides MAC line, delimiter and per-link sequence number; the tag is taken only when maclen octets follow the delimiter and the remainder is moved by the amount the pointer is set to; read() is bounded by the free space of a buffer allocated with that size; length hiding is symmetric; select and nonblock agree. Delivery under all fragmentations and schedules is not decided.", "§3 C13",
          "must-pass-through over the CFG with boolean flags in the path condition; send/receive pairing by symbolic terms; sibling agreement"),
@@ -29,7 +29,7 @@ CLAIMED = {
          "guard domination with affine normalisation of thresholds; must-facts at delivering exits; first-time-filter typestate"),
  'C19': ("Conformance of the finite parts decided against RFC 4880 tables and formulas typed into the checker: radix-64 alphabet and 256-entry inverse table, CRC-24 constants, line length, armor BEGIN/END strings of encoder and decoder; the body-length encoder and decoder evaluated piecewise over all boundary regions (0..8999, 2^16, 2^24, 2^31, 2^32-1; all 256 first octets incl. partial lengths; old-format types); the iterated-S2K count over all 256 octets; big-endian scalar encoders; the CRC comparison guarding ArmorDecode. Byte-exact conformance of every emitted packet and agreement with GnuPG are not decided.", "§3 C19",
          "finite tables against the standard; piecewise finite-domain evaluation of extracted loop-free definitions; guard domination"),
- 'C20': ("Static decision of the gates that make OpenPGP objects tamper-evident: the signature validity predicate is evaluated piecewise over the whole hash enum and ten time scenarios against the statement (weak hashes, expiry, key age, far-future dating refused); every Signature::Verify* accepts only with CheckIntegrity's verdict; CheckIntegrity returns true only on success of the dispatched verifier; Message::Decrypt returns true only through AEAD success or CheckMDC on an integrity-protected packet; CheckMDC compares the recomputed hash; AEAD plaintext is released only after its tag check. That altered data fails the cryptographic checks and agreement with GnuPG are not decided.", "§3 C20",
+ 'C20': ("Static decision of the gates that make OpenPGP objects tamper-evident: the signature validity predicate is evaluated piecewise over the whole hash enum and ten time scenarios against the statement (weak hashes, expiry, key age, far-future dating refused); every Signature::Verify* accepts only with CheckIntegrity's verdict; CheckIntegrity returns true only on success of the dispatched verifier; each AsymmetricVerify* returns success only with gcry_pk_verify's verdict; Message::Decrypt returns true only through AEAD success or CheckMDC on an integrity-protected packet; CheckMDC compares the recomputed hash; AEAD plaintext is released only after its tag check. That altered data fails the cryptographic checks and agreement with GnuPG are not decided.", "§3 C20",
          "piecewise finite-domain evaluation of the validity predicate; guard domination (must-facts) at accepting exits and output sites"),
  'C11': ("Writer/reader agreement decided from the source: for the ten delimiter formats (cards, card secrets, stacks, stack secrets, keys) the exporter's magic, delimiter, number of header fields, loop nesting and fields per iteration equal what the importer parses; for eleven PublishGroup/PublishState publishers the sequence of members written equals the sequence the stream constructor reads; all integer text uses one radix constant. Value-level losslessness (zero, negative, maximal length) is not decided.", "§3 C11",
          "I/O-shape agreement between sibling exporter/importer implementations; constant agreement"),
